@@ -173,7 +173,7 @@ func genIO(r *corr.Rand) (setup []string, threads [][]string) {
 		ops := []string{fmt.Sprintf("openfile %s %d 420", h(f), corr.Pick(r, []int{2, 2, 0, 0x402}))}
 		for k := 0; k < 2+r.Intn(4); k++ {
 			ops = append(ops, corr.Pick(r, []string{"h.write 0 5858", "h.read 0 4", "h.seek 0 0 2", "h.seek 0 9 0", "h.seek 0 -1 2", "h.trunc 0 1", "h.trunc 0 7",
-				"h.stat 0", "h.readat 0 2 0", "h.writeat 0 59 3", "h.writeat 0 59 12", "h.writeat 0 5a5a 40", "h.trunc 0 60", "stat " + h("/a"), "h.sync 0", "h.name 0"}))
+				"h.stat 0", "h.readat 0 2 0", "h.writeat 0 59 3", "h.writeat 0 59 12", "h.writeat 0 5a5a 40", "h.trunc 0 60", "stat " + h("/a"), "h.sync 0", "h.name 0", "h.copyout 0", "h.seek 0 0 0"}))
 		}
 		threads = append(threads, ops)
 	}
